@@ -3,7 +3,8 @@
 # Transforms /repo's current working tree + the harness and builds one harness binary.
 set -euo pipefail
 export GOFLAGS=-mod=mod GOPROXY=off GOSUMDB=off GOTOOLCHAIN=local
-V=/verif
+V=$(dirname "$(readlink -f "$0")")
+export VERIF_DIR=$V
 S=$1; BUF=$2; MAIN=$3; OUT=$4; shift 4
 mkdir -p "$S"
 [ -x $V/bin/chanxform ] && [ $V/bin/chanxform -nt $V/tools/chanxform/main.go ] || (cd $V/tools/chanxform && go build -o $V/bin/chanxform .)
